@@ -1580,7 +1580,7 @@ fn main() {
         "0", "1", "2", "7", "8", "9", "_", ".", "..", "...", "…", "e", "E", "+", "-", "x", "o", "b", "f", "F", "0x", "0o", "0b", "1e", "1_", "1.", ".5",
         "a", "m", "kg", "a.", ".b", "x₂", "₂", "ₜ", "m→", "→", "➞", "≤", "≥", "≠", "⩵", "−", "·", "⋅", "×", "÷", "⁻", "²", "⁻¹", "¹", "½", "⅞", "%", "‰", "$", "€", "฿", "°", "′", "″",
         "\"", "{", "}", "{{", "}}", ":", "::", "\\", "\\\"", "\\n", "\"a{", "}b\"", "}{", ":.2f", "\"s\"",
-        "#c", "#", "\n", " ", "\t", "\r", ";", "per", "to", "let", "fn", "unit", "use", "struct", "dimension", "NaN", "inf", "true", "if", "then", "else", "print", "assert_eq", "type", "Bool", "@", "?", "=",
+        "#c", "#", "\n", " ", "\t", "\r", ";", "per", "to", "let", "fn", "unit", "use", "struct", "dimension", "NaN", "inf", "true", "if", "then", "else", "print", "assert_eq", "type", "Bool", "where", "and", "long", "short", "both", "none", "false", "assert", "String", "DateTime", "Fn", "List", "@", "?", "=",
         "==", "!=", "!", "&", "&&", "|", "||", "|>", "*", "**", "^", "<", "<=", ">", ">=", "->", "/", ",", "(", ")", "[", "]", "π", "µ", "Ω", "ℓ", "ⅹ", "٣", "᠐", "\u{200b}", "\u{feff}", "\u{a0}", "\u{301}",
     ];
     let n_lex = args.count(3000, 150_000);
